@@ -49,6 +49,8 @@ def gen_params(r: random.Random, *, max_einsums=3, small=True, want_multi=False)
     # some specs take their energies from the top-level `variables` section (expressions in the
     # architecture are evaluated against it), so that "the same arch text" can mean different costs
     p["use_vars"] = r.random() < 0.35
+    if r.random() < 0.2:
+        p["mapper"] = {"tiling_coarseness": r.choice([2, 4])}
     return p
 
 
